@@ -682,6 +682,10 @@ class RequestHandler:
             # since the cookie library escapes these characters correctly now. It will be removed
             # in the next feature release.
             raise ValueError(f"Invalid cookie {name!r}: {value!r}")
+        if re.search(r"[^\x00-\xff]", value):
+            # Header values are sent as latin-1; the cookie library leaves
+            # other characters unescaped, which would make flush() fail.
+            raise ValueError(f"Invalid cookie {name!r}: {value!r}")
         for attr_name, attr_value in [
             ("name", name),
             ("domain", domain),
@@ -698,7 +702,9 @@ class RequestHandler:
             # change the timing of the exception (to the generation of the Set-Cookie header in
             # flush()). We may want to add a call to self._new_cookie.output() at the end of this
             # method to ensure that exceptions are raised when they will be most useful.
-            if attr_value is not None and re.search(r"[\x00-\x20\x3b\x7f]", attr_value):
+            if attr_value is not None and re.search(
+                r"[\x00-\x20\x3b\x7f]|[^\x00-\xff]", attr_value
+            ):
                 raise http.cookies.CookieError(
                     f"Invalid cookie attribute {attr_name}={attr_value!r} for cookie {name!r}"
                 )
